@@ -26,7 +26,7 @@ using vf::R;
 
 namespace {
 
-struct Tally { long long states = 0, trans = 0, self_alias = 0, comp_alias = 0, mixed = 0; };
+struct Tally { long long states = 0, trans = 0, self_alias = 0, comp_alias = 0, mixed = 0, self_cmp = 0; };
 
 template <class T> std::string tn ();
 template <> std::string tn<float> () { return "float"; }
@@ -141,6 +141,27 @@ template <class A, class T, int N> void comp_alias (const std::string& cls, bool
     if (has_div) comp_alias_one<A, T, N> (cls, "/=", [] (A& a, const T& s) { a /= s; }, [] (A& a, T s) { a /= s; }, t);
 }
 
+// ==, != with the SAME OBJECT on both sides must answer what they answer for an independent copy: equality is a
+// function of the component values (a NaN component makes an aggregate unequal to itself), not of object identity.
+template <class A, class T, int N> void self_compare (const std::string& cls, Tally& t)
+{
+    for (int slot = -1; slot < N; ++slot) // -1: no NaN
+    {
+        T v[N];
+        fill<T> (1, N, v);
+        if (slot >= 0) v[slot] = std::numeric_limits<T>::quiet_NaN ();
+        A a, c;
+        for (int i = 0; i < N; ++i) { elems<A, T> (a)[i] = v[i]; elems<A, T> (c)[i] = v[i]; }
+        const A& r = a;
+        bool eq_self = (a == r), ne_self = (a != r), eq_copy = (a == c), ne_copy = (a != c);
+        ++t.states; t.trans += 4; ++t.self_cmp;
+        if (eq_self != eq_copy || ne_self != ne_copy || eq_copy == ne_copy)
+            R ().fail (cls + "::operator==/!=.same-object-vs-copy", "T=" + tn<T> () + " v=" + show (v, N) + (slot >= 0 ? " (NaN in slot " + std::to_string (slot) + ")" : ""),
+                       std::string ("a==a ") + (eq_copy ? "1" : "0") + " a!=a " + (ne_copy ? "1" : "0") + " (as for an equal-valued copy)",
+                       std::string ("a==a ") + (eq_self ? "1" : "0") + " a!=a " + (ne_self ? "1" : "0") + " a==copy " + (eq_copy ? "1" : "0") + " a!=copy " + (ne_copy ? "1" : "0"));
+    }
+}
+
 template <class T> void vec_family (Tally& t)
 {
     self_alias<Vec2<T>, T, 2, true> ("Vec2", t); comp_alias<Vec2<T>, T, 2> ("Vec2", true, t);
@@ -202,6 +223,14 @@ void c04_alias_stage ()
     vec_family<float> (t); vec_family<double> (t); vec_family<int> (t); vec_family<short> (t); vec_family<int64_t> (t); vec_family<half> (t);
     color_family<float> (t); color_family<half> (t); color_family<unsigned char> (t);
     fp_family<float> (t); fp_family<double> (t);
+    self_compare<Vec2<float>, float, 2> ("Vec2", t); self_compare<Vec3<float>, float, 3> ("Vec3", t); self_compare<Vec4<float>, float, 4> ("Vec4", t);
+    self_compare<Vec2<double>, double, 2> ("Vec2", t); self_compare<Vec3<double>, double, 3> ("Vec3", t); self_compare<Vec4<double>, double, 4> ("Vec4", t);
+    self_compare<Color3<float>, float, 3> ("Color3", t); self_compare<Color4<float>, float, 4> ("Color4", t);
+    self_compare<Shear6<float>, float, 6> ("Shear6", t); self_compare<Shear6<double>, double, 6> ("Shear6", t);
+    self_compare<Quat<float>, float, 4> ("Quat", t); self_compare<Quat<double>, double, 4> ("Quat", t);
+    self_compare<Matrix22<float>, float, 4> ("Matrix22", t); self_compare<Matrix22<double>, double, 4> ("Matrix22", t);
+    self_compare<Matrix33<float>, float, 9> ("Matrix33", t); self_compare<Matrix33<double>, double, 9> ("Matrix33", t);
+    self_compare<Matrix44<float>, float, 16> ("Matrix44", t); self_compare<Matrix44<double>, double, 16> ("Matrix44", t);
     mixed_left<Color4<float>, double, float, 4> ("Color4", t);
     mixed_left<Color4<float>, int, float, 4> ("Color4", t);
     mixed_left<Color4<double>, float, double, 4> ("Color4", t);
@@ -215,6 +244,7 @@ void c04_alias_stage ()
     R ().cls ("alias.rhs-is-self", t.self_alias);
     R ().cls ("alias.scalar-is-own-component", t.comp_alias);
     R ().cls ("scalar-left.S!=T", t.mixed);
+    R ().cls ("compare.same-object-with-NaN-slots", t.self_cmp);
     R ().sample ("Vec3<float> v(3,5,7); v /= v.x  == (1, 5/3, 7/3)");
     R ().stage_done ("every class template x element type x component-wise compound operator with rhs = the object itself and with the scalar = each own component, 8 generic tuples; "
                      "S*Color4<T>, S*Shear6<T> for 9 (S,T) pairs x 6 scalars x 8 tuples");
